@@ -452,7 +452,7 @@ def truediv(x, y, out=None, out_like=None, sizing='optimal', method='raw', **kwa
 
     def _truediv_raw(x, y, n_frac):
         precision_cast = (lambda m: np.array(m, dtype=object)) if n_frac >= _n_word_max else (lambda m: m)
-        return (x.val * precision_cast(2**(n_frac - x.n_frac + y.n_frac))) // y.val
+        return (x.val * precision_cast(2**(n_frac - x.n_frac + y.n_frac))) // precision_cast(y.val)    # (python integers on both sides, when they are used)
         # return np.floor_divide(np.multiply(x.val, precision_cast(2**(n_frac - x.n_frac + y.n_frac))), y.val)
 
     def _truediv_raw_complex(x, y, n_frac):
